@@ -31,6 +31,11 @@ def run_one(mu, tier):
     tmp = tempfile.mkdtemp(prefix='vsm_')
     try:
         copy_sources(tmp)
+        if mu.get('patch'):
+            r = subprocess.run(['git', 'apply', '--unsafe-paths', '--directory', tmp, mu['patch']], capture_output=True, text=True, cwd=tmp)
+            if r.returncode != 0:
+                return mu, 'STALE', f'seeded patch does not apply: {r.stderr.strip()[:120]}', 0.0
+            return run_check(mu, tier, tmp)
         p = os.path.join(tmp, mu['file'])
         s = open(p).read()
         n = s.count(mu['old'])
@@ -41,6 +46,13 @@ def run_one(mu, tier):
         else:
             s2 = s.replace(mu['old'], mu['new'], 1)
         open(p, 'w').write(s2)
+        return run_check(mu, tier, tmp)
+    finally:
+        shutil.rmtree(tmp, ignore_errors=True)
+
+
+def run_check(mu, tier, tmp):
+    if True:
         env = dict(os.environ); env['VERIF_EVIDENCE_DIR'] = os.path.join(tmp, '_evidence')
         t = time.time()
         r = subprocess.run([os.path.join(VERIF, 'check'), mu['prop'], '--tier', tier, '--repo', tmp], capture_output=True, text=True, env=env, timeout=1800)
@@ -61,8 +73,6 @@ def run_one(mu, tier):
             if r.returncode == 2:
                 return mu, 'ANALYSIS-ERROR', out.strip().splitlines()[-1][:200], dt
             return mu, 'FALSE-ALARM', (viol[0][:200] if viol else out[-200:]), dt
-    finally:
-        shutil.rmtree(tmp, ignore_errors=True)
 
 
 def main():
@@ -72,6 +82,12 @@ def main():
     ap.add_argument('--tier', default='quick')
     ap.add_argument('--json', default=os.path.join(HERE, 'last_result.json'))
     a = ap.parse_args()
+    # the confirmed sub-agent changes kept under /verif/seeded are mutants too: each must be reported by its property's check
+    seeded = os.path.join(VERIF, 'seeded')
+    for sid in sorted(os.listdir(seeded)) if os.path.isdir(seeded) else []:
+        pf = os.path.join(seeded, sid, 'patch.diff')
+        if os.path.isfile(pf):
+            M.append(dict(id=f'seed-{sid}', prop=sid[:3], file='', old='', new='', count='first', expect='fire', rule=None, patch=pf))
     todo = [mu for mu in M if not a.only or a.only in mu['id'] or a.only == mu['prop']]
     t0 = time.time()
     with ThreadPoolExecutor(a.jobs) as ex:
